@@ -51,6 +51,26 @@ def replay_edge(j, e, sigma, classes=None):
             j.fail("%s|%s|%s|wrong-value" % (PID, site, feat), dict(detail, distance=d), cid)
         else:
             j.ok(cid, nontrivial=gl.angle_band(pre) != "0" or not gl.trans_free(pre))
+        # the same transition with the receiver stored as an INTEGER matrix (lattice members have integer entries),
+        # in the binary and in the augmented call form
+        if sigma == 1.0:
+            for aug in (False, True):
+                try:
+                    Xi = gamma.build_int(cname, pre)
+                    if Xi is None:
+                        break
+                    Yi = gl.apply(cname, Xi, call, sigma, aug=aug)
+                except Exception as ex:  # noqa: BLE001
+                    j.fail("%s|%s|%s;int-receiver|raised-%s" % (PID, site, feat, type(ex).__name__), detail, cid)
+                    break
+                if Yi is None:
+                    break
+                oki, di, _ = gl.check_value(cname, Yi, post, sigma, scale)
+                cidi = cid + ("int", aug)
+                if not oki:
+                    j.fail("%s|%s|%s;int-receiver%s|wrong-value" % (PID, site, feat, ";augmented" if aug else ""), dict(detail, distance=di), cidi)
+                else:
+                    j.ok(cidi)
 
 
 def replay_tree(j, h, sigma):
